@@ -1538,3 +1538,44 @@ def loop_assigned_locals(g, fname="variational.ExpectationPropagation.rescale",
             return None
         g.forall_paths(f"{caller}:establishes-{short}-precondition", paths, pred,
                        f"every call of {short}() is guarded by " + " and ".join(f"{p} > 0" for p in sorted(need)))
+
+
+# ---------------------------------------------------------------------------------------------
+def rescale_factors_effect(g):
+    """C21 / C05 / C20: the G1 proof of propagate_likelihood uses the contract of `_rescale_factors` (every message
+    multiplied IN PLACE by the scale of the node it belongs to, then scale[:] = 1, so scale*message -- hence the
+    posterior bookkeeping -- is unchanged and the kernel's local aliases `scale`, `factor` stay valid).  This is that
+    contract as an effect obligation on the real body: exactly these seven element-wise in-place stores, in any
+    order, no rebinding of a field of `factors`, nothing else written."""
+    name = "variational._rescale_factors"
+    paths = g.trace(name)
+    if paths is None:
+        return
+    want = {
+        ("factors.edge", "(:, ROOTWARD)", "(factors.edge[(:, ROOTWARD)] Mult factors.scale[(factors._p, np.newaxis)])"),
+        ("factors.edge", "(:, LEAFWARD)", "(factors.edge[(:, LEAFWARD)] Mult factors.scale[(factors._c, np.newaxis)])"),
+        ("factors.block", "(:, ROOTWARD)", "(factors.block[(:, ROOTWARD)] Mult factors.scale[(factors._j, np.newaxis)])"),
+        ("factors.block", "(:, LEAFWARD)", "(factors.block[(:, LEAFWARD)] Mult factors.scale[(factors._k, np.newaxis)])"),
+        ("factors.node", "(:, MIXPRIOR)", "(factors.node[(:, MIXPRIOR)] Mult factors.scale[(:, np.newaxis)])"),
+        ("factors.node", "(:, CONSTRNT)", "(factors.node[(:, CONSTRNT)] Mult factors.scale[(:, np.newaxis)])"),
+    }
+    last = ("factors.scale", ":", "1.0")
+
+    def pred(p):
+        stores = [(ev["target"], ev.get("index"), text_of(ev["value"])) for ev in p.events if ev["kind"] == "store-item"]
+        rebinds = [ev["target"] for ev in p.events if ev["kind"] == "store"]
+        calls = [ev["func"] for ev in p.events if ev["kind"] == "call"]
+        if rebinds:
+            return f"field rebound instead of written in place: {rebinds} (aliases held by the caller go stale)"
+        if calls:
+            return f"unexpected call(s) {calls}"
+        if not stores or stores[-1] != last:
+            return f"the last store is not factors.scale[:] = 1.0 but {stores[-1] if stores else None}"
+        if set(stores[:-1]) != want or len(stores) != 7:
+            extra = [s for s in stores[:-1] if s not in want]
+            missing = [w for w in want if w not in stores]
+            return f"message scaling differs from the contract: unexpected {extra}, missing {missing}"
+        return None
+    g.forall_paths(f"{name}:effect-is-in-place-scaling-then-unit-scale", paths, pred,
+                   "assigns exactly: edge[:,d] *= scale[_p|_c], block[:,d] *= scale[_j|_k], node[:,k] *= scale, "
+                   "then scale[:] = 1.0 (in place)", only=lambda p: p.status in ("return", "fallthrough", "end", None) or True)
